@@ -95,19 +95,36 @@ namespace world
         return *l;
     }
 
+#if defined(__has_feature)
+#if __has_feature(thread_sanitizer)
+#define WORLD_NO_LEDGER 1
+#endif
+#endif
+#if defined(__SANITIZE_THREAD__)
+#define WORLD_NO_LEDGER 1
+#endif
+
     template <class Base>
     class Counting : public Base
     {
     public:
         using Base::Base;
+#ifndef WORLD_NO_LEDGER
+        // (not in the TSan build: the ledger's lock would order every allocState/freeState of different threads and
+        // hide races between them from the happens-before analysis; nothing there judges the ledger)
         ob::State *allocState() const override
         {
             ob::State *s = Base::allocState();
             ledger().onAlloc(s);
             return s;
         }
+#endif
         void freeState(ob::State *s) const override
         {
+#ifdef WORLD_NO_LEDGER
+            Base::freeState(s);
+            return;
+#endif
             if (!ledger().onFree(s))
                 return;  // do not hand a non-live state to the real deallocator: the ledger reports it
             Base::freeState(s);
@@ -294,7 +311,7 @@ namespace world
         }
         bool isValid(const ob::State *s) const override
         {
-            long n = ++w_->validCalls;
+            long n = w_->validCalls.fetch_add(1, std::memory_order_relaxed) + 1;  // relaxed: must not order the callers' other accesses (TSan)
             if (w_->validBudget >= 0 && (n > w_->validBudget || ((n & 0xffff) == 0 && cpuSeconds() > w_->cpuBudget)))
             {
                 if (w_->onBudgetExhausted)
